@@ -99,19 +99,19 @@ Definition canon (R : region_id) : fill_region :=
              fr_max0 := fun l2 window ldiff ldiffr ldiffc ri2 ri3 => (window + ldiffc);
              fr_wpsi0 := fun l2 window ldiff ldiffr ldiffc ri2 ri3 => 1;
              fr_dmin := 0; fr_dmax := 1; fr_dwpsi := 0; fr_offdiag := (-1); fr_offup := 0;
-             fr_head_fill := false; fr_row0_store := false; fr_skip := "" |}
+             fr_head_fill := false; fr_row0_store := false; fr_skip := ""; fr_recurrence := "" |}
   | RB => {| fr_kernel := ""; fr_region := RB;
              fr_min0 := fun l2 window ldiff ldiffr ldiffc ri2 ri3 => 0;
              fr_max0 := fun l2 window ldiff ldiffr ldiffc ri2 ri3 => l2;
              fr_wpsi0 := fun l2 window ldiff ldiffr ldiffc ri2 ri3 => 1;
              fr_dmin := 0; fr_dmax := 0; fr_dwpsi := 0; fr_offdiag := (-1); fr_offup := 0;
-             fr_head_fill := false; fr_row0_store := false; fr_skip := "" |}
+             fr_head_fill := false; fr_row0_store := false; fr_skip := ""; fr_recurrence := "" |}
   | RC => {| fr_kernel := ""; fr_region := RC;
              fr_min0 := fun l2 window ldiff ldiffr ldiffc ri2 ri3 => 1;
              fr_max0 := fun l2 window ldiff ldiffr ldiffc ri2 ri3 => (((1 + (2 * window)) - 1) + ldiff);
              fr_wpsi0 := fun l2 window ldiff ldiffr ldiffc ri2 ri3 => 1;
              fr_dmin := 1; fr_dmax := 1; fr_dwpsi := 0; fr_offdiag := 0; fr_offup := 1;
-             fr_head_fill := false; fr_row0_store := true; fr_skip := "" |}
+             fr_head_fill := false; fr_row0_store := true; fr_skip := ""; fr_recurrence := "" |}
   | RD => {| fr_kernel := ""; fr_region := RD;
              fr_min0 := fun l2 window ldiff ldiffr ldiffc ri2 ri3 =>
                (if ri2 =? ri3 then (Z.max 0 (((ri3 + 1) - window) - ldiffr)) else ((1 + ri3) - ri2));
@@ -119,7 +119,7 @@ Definition canon (R : region_id) : fill_region :=
              fr_wpsi0 := fun l2 window ldiff ldiffr ldiffc ri2 ri3 =>
                (if ri2 =? ri3 then ((Z.max 0 (((ri3 + 1) - window) - ldiffr)) + 1) else 2);
              fr_dmin := 1; fr_dmax := 0; fr_dwpsi := 1; fr_offdiag := (-1); fr_offup := 0;
-             fr_head_fill := true; fr_row0_store := false; fr_skip := "" |}
+             fr_head_fill := true; fr_row0_store := false; fr_skip := ""; fr_recurrence := "" |}
   end.
 
 (* region_ok does not look at the kernel name and the skip bound *)
@@ -200,3 +200,28 @@ Qed.
 
 Theorem sixteen_regions : length fill_regions = 16%nat.
 Proof. vm_compute. reflexivity. Qed.
+
+(* the recurrence as the kernels write it: the distance kernels store d + MIN3(left + penalty, diagonal, up + penalty),
+   the affinity kernels take MAX3(left - penalty, diagonal, up - penalty) -- with the parts' penalty (p.penalty) *)
+Theorem recurrence_texts : forall r, In r fill_regions ->
+  fr_recurrence r = "MIN3:W+p.penalty,W,W+p.penalty;store=d+MIN3"%string \/
+  fr_recurrence r = "MAX3:W-p.penalty,W,W-p.penalty;store=other"%string.
+Proof.
+  assert (H : forallb (fun r => String.eqb (fr_recurrence r) "MIN3:W+p.penalty,W,W+p.penalty;store=d+MIN3"
+                               || String.eqb (fr_recurrence r) "MAX3:W-p.penalty,W,W-p.penalty;store=other") fill_regions = true)
+    by (vm_compute; reflexivity).
+  intros r Hr. rewrite forallb_forall in H. specialize (H r Hr). apply orb_true_iff in H.
+  destruct H as [H|H]; apply String.eqb_eq in H; auto.
+Qed.
+
+Theorem distance_kernels_use_min3 : forall r, In r fill_regions ->
+  (fr_kernel r = "dtw_warping_paths_ndim" \/ fr_kernel r = "dtw_warping_paths_ndim_euclidean")%string ->
+  fr_recurrence r = "MIN3:W+p.penalty,W,W+p.penalty;store=d+MIN3"%string.
+Proof.
+  assert (H : forallb (fun r => negb (String.eqb (fr_kernel r) "dtw_warping_paths_ndim" || String.eqb (fr_kernel r) "dtw_warping_paths_ndim_euclidean")
+                               || String.eqb (fr_recurrence r) "MIN3:W+p.penalty,W,W+p.penalty;store=d+MIN3") fill_regions = true)
+    by (vm_compute; reflexivity).
+  intros r Hr Hk. rewrite forallb_forall in H. specialize (H r Hr). apply orb_true_iff in H. destruct H as [H|H].
+  - apply negb_true_iff, orb_false_iff in H. destruct H as [Ha Hb]. apply String.eqb_neq in Ha, Hb. destruct Hk; contradiction.
+  - apply String.eqb_eq. exact H.
+Qed.
